@@ -21,6 +21,9 @@ const ModulePath = "github.com/taskctl/taskctl"
 
 // Prog is the loaded program.
 type Prog struct {
+	// BudgetExhausted lists the functions whose path exploration hit the path budget.
+	BudgetExhausted []string
+
 	Root    string
 	Tier    string
 	Tags    string
